@@ -41,7 +41,7 @@ def states(tier, seed):
     Ms = [0.0, 0.3, 0.84] if tier == "quick" else [0.0, 0.3, 0.6, 0.84, 0.94]
     als = [0.0, 5.0, -10.0] if tier == "quick" else [0.0, 5.0, 15.0, -10.0]
     st, inadm = [], 0
-    for ss, M, al, be, rot in itertools.product(surf_sets(tier), Ms, als, [0.0, 5.0], [False, True]):
+    for ss, M, al, be, rot in itertools.product(surf_sets(tier), Ms, als, [0.0, 5.0, -5.0], [False, True]):
         sym = any(s["side"] != "full" for s in ss)
         if sym and be != 0.0:
             inadm += 1
@@ -64,7 +64,7 @@ def states(tier, seed):
         st.append(dict(part="as_m0", model=model, side=side, alpha=al, surfs=[], fam=fam))
     # ... and at M > 0, with sideslip, its forces are the Prandtl-Glauert transform of the incompressible solution on the CONVERGED
     # deformed mesh
-    for model, M, al, be in itertools.product(["tube", "wingbox"], [0.3, 0.84], [4.0], [0.0, 5.0]):
+    for model, M, al, be in itertools.product(["tube", "wingbox"], [0.3, 0.84], [4.0], [0.0, 5.0, -5.0]):
         st.append(dict(part="as_pg", model=model, M=M, alpha=al, beta=be, surfs=[], fam=fam))
     # rotation rates at M > 0: the onset flow handed to the equivalent incompressible problem must be a rigid-body rotation field
     # OF THE STRETCHED GEOMETRY (some omega', u with v_i = omega' x r'_i + u) - "the incompressible problem on the geometry
